@@ -76,7 +76,10 @@ func (opt *OperationTracker) TrackNewOperation(ctx context.Context, pin *api.Pin
 
 	op, ok := opt.operations[pin.Cid]
 	if ok { // operation exists
-		if op.Type() == typ && op.Phase() != PhaseError && op.Phase() != PhaseDone {
+		// An ongoing pin operation only makes the new one redundant
+		// when it pins to the same depth (i.e. direct vs. recursive).
+		sameDepth := typ != OperationPin || op.Pin().MaxDepth == pin.MaxDepth
+		if op.Type() == typ && sameDepth && op.Phase() != PhaseError && op.Phase() != PhaseDone {
 			return nil // an ongoing operation of the same sign exists
 		}
 		op.Cancel() // cancel ongoing operation and replace it
